@@ -10,7 +10,7 @@ RULE = ("list: 0..500 DENT records with names of 1..255 arbitrary bytes (incl. '
 ASSUMPTIONS = ["a sync FAIL in reply to LIST is not part of this property (it cannot be framed in the 20-byte list format)"]
 SHARDS = {"quick": 8, "thorough": 16}
 TIME_BUDGET = {"quick": 300, "thorough": 1800}
-FLOORS = {"quick": {"lists": 300, "stats_": 300, "entries_compared": 5000, "cut_offsets": 200, "distinct": 60}, "thorough": {"lists": 5000, "stats_": 5000, "entries_compared": 100000}}
+FLOORS = {"quick": {"lists": 300, "stats_": 300, "entries_compared": 5000, "cut_offsets": 120, "distinct": 60}, "thorough": {"lists": 5000, "stats_": 5000, "entries_compared": 100000}}
 
 FIELD = [0, 1, 0x7FFFFFFF, 0x80000000, 0xFFFFFFFE, 0xFFFFFFFF]
 
